@@ -4,4 +4,5 @@ import Cell2v.Props.C09Ring
 import Cell2v.Props.C09Mpsc
 import Cell2v.Props.C09Sched
 import Cell2v.Props.C09X
+import Cell2v.Props.C09T
 #audit_ns Cell2v.Props.C09
